@@ -70,6 +70,7 @@ type GenOpts struct {
 	MaxTxPerEntry int
 	MaxGap        int
 	AllowEmpty    bool // blocks without entries / entries without transactions
+	EmptyEntries  bool // entries without transactions (even when AllowEmpty is false)
 	BigFrames     bool // allow sections with 3-byte length varints (>= 16 KiB frames)
 	Universe      int  // size of the account universe used by Accounts/Loaded
 	NoMetaOK      bool // allow transactions without metadata
@@ -157,7 +158,7 @@ func Gen(t *rapid.T, o GenOpts) *EpochSpec {
 			var es EntrySpec
 			es.NumHashes = rapid.SampledFrom([]int{0, 1, 12500, 800000}).Draw(t, "numHashes")
 			nt := rapid.IntRange(0, o.MaxTxPerEntry).Draw(t, "nTx")
-			if !o.AllowEmpty && nt == 0 {
+			if !o.AllowEmpty && !o.EmptyEntries && nt == 0 {
 				nt = 1
 			}
 			for i := 0; i < nt; i++ {
